@@ -30,7 +30,7 @@ func runC30(c *core.Ctx) error {
 		return err
 	}
 	defer l.Close()
-	bases, err := chooseBases(c, l, c.Pick(5, 7), c.Pick(4, 16), c.Pick(200, 500))
+	bases, err := chooseBases(c, l, 9, c.Pick(2, 40), c.Pick(200, 500))
 	if err != nil {
 		return err
 	}
@@ -70,7 +70,9 @@ func runC30(c *core.Ctx) error {
 		}
 		who := rejectedBy(r)
 		if r.Panic != "" {
-			who = ""
+			c.Violate("linter-panics/"+e.label(), "the linter panics on "+e.label()+": "+r.Panic,
+				map[string]any{"old": RenderBody(old), "new": RenderBody(m.New), "base": bases[m.B-1].Name, "log": m.Log})
+			return nil
 		}
 		verdict := "reject"
 		isViolation := false
@@ -146,7 +148,7 @@ func runC30(c *core.Ctx) error {
 	}
 
 	// code -> spec: recorded calls validated by TLC (new is old after one documented unsafe edit => reject)
-	if len(evs) > c.Pick(150, 1500) {
+	if len(evs) > c.Pick(100, 1500) {
 		// keep every flagged event and a prefix of the others
 		var ke []traceEvent
 		var kf []bool
@@ -157,7 +159,7 @@ func runC30(c *core.Ctx) error {
 			}
 		}
 		for i := range evs {
-			if flagged[i] || (i%max(1, len(evs)/c.Pick(150, 1500)) == 0 && len(ke) < c.Pick(150, 1500)+nFlagged) {
+			if flagged[i] || (i%max(1, len(evs)/c.Pick(100, 1500)) == 0 && len(ke) < c.Pick(100, 1500)+nFlagged) {
 				ke = append(ke, evs[i])
 				kf = append(kf, flagged[i])
 			}
